@@ -41,6 +41,7 @@ PINS = [
     'mesonbuild.mtest:TestHarness.total_failure_count',
     'mesonbuild.mtest:TestHarness.summary',
     'mesonbuild.mtest:TestHarness.get_tests',
+    'mesonbuild.mtest:TestHarness.tests_from_args',
     'mesonbuild.mtest:TestHarness.test_suitable',
     'mesonbuild.mtest:TestHarness.test_in_suites',
     'mesonbuild.mtest:TestHarness.split_suite_string',
@@ -66,8 +67,9 @@ TRUSTED = [
     '(virtual-clock timer, real StreamReader); real process spawning / process-group killing is exercised only '
     'by the end-to-end stream with real `meson test`',
     'SIGINT / SIGTERM handlers of _run_tests, --gdb, benchmarks, test setups (--setup; so the branch '
-    '`timeout_multiplier is None` of the time-limit rule is modelled but reachable only through --setup), --wrapper and '
-    'positional test-name arguments (fnmatch) are outside the model and are not generated; --interactive only in the '
+    '`timeout_multiplier is None` of the time-limit rule is modelled but reachable only through --setup), --wrapper are outside '
+    'the model and are not generated; positional test-name arguments: `[`-classes of fnmatch are outside the validated '
+    'domain (names and patterns are made of letters, digits, `*`, `?`, `:`); --interactive only in the '
     'time-limit arithmetic stream',
     'reporting stream: the harness object is built by the real TestHarness constructor (only load_metadata replaced), '
     'its logger list is replaced by a recording logger + a real JsonLogfileBuilder, counters are only read; '
@@ -315,7 +317,19 @@ def o_suite_match(sel: str, test_suites: T.List[str]) -> bool:
     return False
 
 
-def o_selected(case: dict) -> T.List[int]:
+def o_arg_match(arg: str, t: dict) -> bool:
+    """Unit-tests.md: `meson test A D` = tests of those names; `(sub)project_name:` = every test of that project;
+    `(sub)project_name:test_name` = that test of that project; wildcards allowed in project and test names.
+    (`:name` = `name` in any project, per the docstring of tests_from_args.)"""
+    import fnmatch
+    if ':' in arg:
+        prj, name = arg.split(':', 1)
+    else:
+        prj, name = '', arg
+    return fnmatch.fnmatchcase(t.get('prj', 'p'), prj or '*') and fnmatch.fnmatchcase(t['name'], name or '*')
+
+
+def o_candidates(case: dict) -> T.List[int]:
     """--suite keeps only members of a listed suite, --no-suite drops members of a listed suite"""
     out = []
     for i, t in enumerate(case['tests']):
@@ -324,6 +338,20 @@ def o_selected(case: dict) -> T.List[int]:
         if case.get('suites') and not any(o_suite_match(s, t['suite']) for s in case['suites']):
             continue
         out.append(i)
+    return out
+
+
+def o_args_refused(case: dict) -> bool:
+    """an argument that names no test is an error (the command must not succeed on a wrong name)"""
+    cand = o_candidates(case)
+    return any(not any(o_arg_match(a, case['tests'][i]) for i in cand) for a in case.get('args', []))
+
+
+def o_selected(case: dict) -> T.List[int]:
+    """suite filters, then positional names: a test is selected iff SOME argument names it — once, in list order"""
+    out = o_candidates(case)
+    if case.get('args'):
+        out = [i for i in out if any(o_arg_match(a, case['tests'][i]) for a in case['args'])]
     return out
 
 
@@ -546,6 +574,10 @@ def trace_line(case: dict, res: dict) -> T.Optional[str]:
 def select_line(case: dict) -> str:
     tests = ';'.join(f'{enc(t["name"])}:{enc(t.get("prj", "p"))}:{enc_list(t["suite"])}' for t in case['tests'])
     sl = case.get('slice')
+    if case.get('args'):
+        return 'selectargs %s|%s|%s|%s|%s|%s|%s' % (
+            enc('p'), enc_list(case.get('suites', [])), enc_list(case.get('nosuites', [])), '',
+            ('%d/%d' % tuple(sl)) if sl else '', tests, enc_list(case['args']))
     return 'select %s|%s|%s|%s|%s|%s' % (enc('p'), enc_list(case.get('suites', [])), enc_list(case.get('nosuites', [])),
                                         '', ('%d/%d' % tuple(sl)) if sl else '', tests)
 
@@ -608,6 +640,31 @@ def mk_test(i: int, par: bool, dur: int, rc: int = 0, **kw) -> dict:
     return t
 
 
+def arg_pool(tests: T.List[dict]) -> T.List[str]:
+    """positional arguments in every documented form: exact names, wildcards, `project:`, `project:name`, `:name`"""
+    names = [t['name'] for t in tests]
+    pool = list(names) + ['t*', 't?', '*', 'p:', 'q:', '*:', 't1*', '*1', 'p:t*', 'q:t*', '*:t?', 'zz', 'q:zz']
+    pool += [':' + n for n in names[:3]] + ['p:' + n for n in names[:3]] + ['q:' + n for n in names[:2]]
+    return pool
+
+
+def rand_args(rng, tests: T.List[dict]) -> T.List[str]:
+    """1-3 arguments, biased to overlapping ones (a name together with a pattern that also matches it)"""
+    pool = arg_pool(tests)
+    k = rng.random()
+    if k < 0.4:
+        t = rng.choice(tests)
+        a = [t['name'], rng.choice(['t*', '*', t.get('prj', 'p') + ':', ':' + t['name'], t.get('prj', 'p') + ':' + t['name'], 't?'])]
+        rng.shuffle(a)
+        if rng.random() < 0.3:
+            a.append(rng.choice(pool[:-2]))
+        return a
+    if k < 0.5:
+        n = rng.choice(tests)['name']
+        return [n, n]
+    return [rng.choice(pool if rng.random() < 0.15 else pool[:-2]) for _ in range(rng.randint(1, 3))]
+
+
 def rand_case(rng, big: bool = False) -> dict:
     n = rng.randint(1, 12 if big else 7)
     pser = rng.choice([0.0, 0.15, 0.3, 0.6, 1.0])
@@ -649,6 +706,11 @@ def rand_case(rng, big: bool = False) -> dict:
         case['slice'] = [rng.randint(1, nsl), nsl]
     if rng.random() < 0.15:
         case['tmult'] = rng.choice([-1.0, 0.0, 0.5, 1.0, 1.5, 2.0, 2.5])
+    if rng.random() < 0.2:
+        for t in tests:
+            if rng.random() < 0.3:
+                t['prj'] = 'q'
+        case['args'] = rand_args(rng, tests)
     if case['repeat'] > 1 and rng.random() < 0.5:
         beh = {}
         for i in range(n):
@@ -681,6 +743,9 @@ def adversarial_cases() -> T.Iterable[dict]:
                'repeat': 3, 'maxfail': 0}
         yield {'tests': [mk_test(0, True, 3, 1), mk_test(1, True, 3, 2), mk_test(2, True, 3, 99), mk_test(3, True, 4)],
                'jobs': jobs, 'repeat': 1, 'maxfail': 2}
+        for args in (['t1', 't*'], ['*', 't2'], ['p:', 't0'], ['t0', 'p:t0'], ['t?', 't1', ':t1'], ['q:', '*2']):
+            yield {'tests': [mk_test(0, True, 1), mk_test(1, True, 2, 1), mk_test(2, False, 1, prj='q'), mk_test(3, True, 0)],
+                   'jobs': jobs, 'repeat': 1 + jobs % 2, 'maxfail': 0, 'args': args}
         # the N-th failure arrives while longer tests are in flight; a timeout among the killed; repeat + maxfail
         for mf in (1, 2, 3):
             yield {'tests': [mk_test(0, True, 9), mk_test(1, True, 1, 1), mk_test(2, True, 9, 0, sf=True),
@@ -765,10 +830,14 @@ def check_batch(ctx: Ctx, cases: T.List[dict], base: str, tagname: str) -> int:
             report(ctx, kind, msg, case)
         # oracle: selection rule
         if not isinstance(res.get('selected'), str) and not res.get('error', None):
-            want = o_selected(case)
+            want = None if o_args_refused(case) else o_selected(case)
             sl = case.get('slice')
-            if sl:
+            if sl and want is not None:
                 want = want[sl[0] - 1::sl[1]] if sl[1] <= len(want) else None
+            if case.get('args'):
+                ctx.tag('opt:name-args')
+                if want is not None and any(sum(1 for a in case['args'] if o_arg_match(a, case['tests'][i])) > 1 for i in want):
+                    ctx.tag('opt:name-args-overlapping')
             if want is not None and res['selected'] != want:
                 ctx.violation(vkey('selection', case), f'selected {res["selected"]}, documented rule selects {want}',
                               {'stream': 'inproc', 'case': case, 'kind': 'selection'})
@@ -1148,7 +1217,7 @@ def direct_selection(ctx: Ctx, base: str) -> None:
                 try:
                     return [names[t.name] for t in th.get_tests()]
                 except Exception as e:
-                    return 'ERR:' + type(e).__name__
+                    return c12_inproc.sel_err(e)
 
     # (1) the three-way rule directly
     lines, impl = [], []
@@ -1165,6 +1234,33 @@ def direct_selection(ctx: Ctx, base: str) -> None:
                 if got != o_suite_match(sel, [ps]):
                     ctx.violation(f'suite:{sel}:{ps}', f'--suite {sel!r} on test suite {ps!r}: selected={got}',
                                   {'stream': 'suite', 'sel': sel, 'suite': ps})
+    # (1b) positional arguments: every single argument and every pair of the pool on a fixed two-project test list
+    fixed = [mk_test(0, True, 0), mk_test(1, True, 0), mk_test(2, True, 0, prj='q'), mk_test(10, True, 0),
+             mk_test(11, True, 0, prj='q')]
+    pool = arg_pool(fixed)
+    arglists = [[a] for a in pool] + [[a, b] for a in pool for b in pool]
+    if not ctx.deep:
+        arglists = arglists[:len(pool)] + [al for k, al in enumerate(arglists[len(pool):]) if k % 4 == ctx.seed % 4]
+    for al in arglists:
+        case = {'tests': fixed, 'jobs': 1, 'args': al}
+        got = selected(case)
+        ctx.count()
+        ctx.tag('direct:select-argpairs')
+        lines.append(select_line(case))
+        impl.append(got if isinstance(got, str) else ' '.join(map(str, got)))
+        if o_args_refused(case):
+            if not isinstance(got, str):
+                ctx.violation(vkey('selection', case), f'arguments {al}: a name matches no test, yet {got} were selected',
+                              {'stream': 'select', 'case': case})
+        elif got != o_selected(case):
+            ctx.violation(vkey('selection', case), f'arguments {al} selected {got}, documented meaning selects '
+                          f'{o_selected(case)} (each named test once, in order)', {'stream': 'select', 'case': case})
+    # (1c) the matcher alone (model: `*`, `?`, literals)
+    import fnmatch as _fn
+    for pat in ['*', 't*', 't?', '*1', 't1*', 't1', '?1', '**', '*t*1', '', 't??', 'q']:
+        for sname in ['', 't', 't1', 't10', 't11', 'q', 'p', 'tt1', '1']:
+            lines.append(f'glob {enc(pat)}|{enc(sname)}')
+            impl.append(str(int(_fn.fnmatchcase(sname, pat))))
     # (2) whole selections with slices
     for _ in range(ctx.scale(150, 1500)):
         n = rng.randint(1, 9)
@@ -1173,10 +1269,24 @@ def direct_selection(ctx: Ctx, base: str) -> None:
             case['suites'] = [rng.choice(SUITE_SELS) for _ in range(rng.randint(1, 2))]
         if rng.random() < 0.3:
             case['nosuites'] = [rng.choice(SUITE_SELS)]
+        if rng.random() < 0.4:
+            for t in case['tests']:
+                if rng.random() < 0.3:
+                    t['prj'] = 'q'
+            case['args'] = rand_args(rng, case['tests'])
+            ctx.tag('direct:select-args')
         base_sel = selected(case)
         want = o_selected(case)
         ctx.count()
         ctx.tag('direct:select')
+        if o_args_refused(case):
+            # nothing may run on a wrong name; the refusal itself is compared with the model below
+            lines.append(select_line(case))
+            impl.append(' '.join(map(str, base_sel)) if not isinstance(base_sel, str) else base_sel)
+            if not isinstance(base_sel, str):
+                ctx.violation(vkey('selection', case), f'argument list {case["args"]} has a name that matches no test, '
+                              f'yet {base_sel} were selected', {'stream': 'select', 'case': case})
+            continue
         if base_sel != want:
             ctx.violation(vkey('selection', case), f'selected {base_sel}, documented rule selects {want}',
                           {'stream': 'select', 'case': case})
@@ -1190,7 +1300,7 @@ def direct_selection(ctx: Ctx, base: str) -> None:
                 s = selected(c2)
                 per.append(s)
                 lines.append(select_line(c2))
-                impl.append('ERR:tooManySlices' if isinstance(s, str) else ' '.join(map(str, s)))
+                impl.append(s if isinstance(s, str) else ' '.join(map(str, s)))
                 ctx.count()
             msg = oracle_slices(want, per, nsl)
             if msg:
@@ -1290,7 +1400,7 @@ def meson_cmd(args: T.List[str], cwd: str, timeout: int = 300) -> subprocess.Com
 
 def e2e_selected(proj: dict, opts: dict) -> T.List[int]:
     case = {'tests': [dict(t, suite=[('p:' + s) for s in t['suite']] or ['p']) for t in proj['tests']],
-            'suites': opts.get('suites', []), 'nosuites': opts.get('nosuites', [])}
+            'suites': opts.get('suites', []), 'nosuites': opts.get('nosuites', []), 'args': opts.get('args', [])}
     return o_selected(case)
 
 
@@ -1570,6 +1680,10 @@ def e2e_stream(ctx: Ctx, nproj: int, nruns: int) -> None:
                 elif k < 0.75:
                     o['nosuites'] = [rng.choice(['a', 'b'])]
                 runs.append(o)
+            # positional names: one run with overlapping arguments (a name and a pattern / project form covering it)
+            tn = rng.choice(proj['tests'])['name']
+            runs.append({'jobs': rng.randint(1, 4), 'args': rng.choice([[tn, 't*'], ['*', tn], ['p:', tn], [tn, 'p:' + tn],
+                                                                         ['t?', ':' + tn]])})
             # slices: every i for one n
             nsl = rng.randint(2, 3)
             runs += [{'jobs': 3, 'slice': [i, nsl]} for i in range(1, nsl + 1)]
@@ -1588,6 +1702,9 @@ def e2e_stream(ctx: Ctx, nproj: int, nruns: int) -> None:
                     args += ['--no-suite', s]
                 if o.get('slice'):
                     args += ['--slice', '%d/%d' % tuple(o['slice'])]
+                args += o.get('args', [])
+                if o.get('args'):
+                    ctx.tag('e2e:name-args')
                 p = meson_cmd(args, base)
                 loglines = open(log).read().split('\n')[:-1] if os.path.exists(log) else []
                 jl = []
